@@ -20,7 +20,9 @@ import re
 import time
 from typing import Any, Dict, List, Optional, Tuple
 
-from .. import core, qgen, semrun
+import os
+
+from .. import core, impl, qgen, semrun
 
 PID = "C05"
 PROP_FILE = "Properties/C05.v"
@@ -395,6 +397,73 @@ def short(o) -> str:
     return f"{o[0]}:{o[1] if len(o) > 1 else ''}"
 
 
+STUB_ROOT = '''
+import json, sys
+REC = {"files": None, "submitted": False}
+class _Any:
+    def __init__(self, *a, **k): pass
+    def __call__(self, *a, **k): return _Any()
+    def __getattr__(self, n): return _Any()
+class _SH:
+    SampleHandler = _Any
+    @staticmethod
+    def readFileList(sh, name, path):
+        REC["files"] = [ln.rstrip("\\n") for ln in open(path)]
+class _Driver(_Any):
+    def submit(self, job, d):
+        REC["submitted"] = True
+        json.dump(REC, open("fv_job_record.json", "w"))
+class _EL(_Any):
+    Job = _Any
+    OutputStream = _Any
+    DirectDriver = _Driver
+SH = _SH
+EL = _EL()
+xAOD = _Any()
+'''
+
+
+def job_script_file_lists(oc: core.Outcome) -> Dict[str, int]:
+    """The ATLAS job script hands the event-loop driver the files of filelist.txt as they are listed - in order, a file listed twice
+    twice (the events of L ++ L are those of L, twice).  The rendered ATestRun_eljob.py is run with stand-in ROOT / AnaAlgorithm
+    modules that record what SH.readFileList is given."""
+    import subprocess
+    import sys as _sys
+    import tempfile
+    from pathlib import Path as _P
+
+    hist: Dict[str, int] = collections.Counter()
+    r = impl.translate("atlas", impl.query_ast('ds.Select(lambda e: e.Jets("b1").Count())', None))
+    impl.reset_globals()
+    if r[0] != "ok" or "ATestRun_eljob.py" not in r[1]["files"]:
+        oc.correspondence_breaks.append({"note": "no ATestRun_eljob.py in the ATLAS package: the job-script file-list test has no subject"})
+        return dict(hist)
+    script = r[1]["files"]["ATestRun_eljob.py"]["text"]
+    A, B, C = "/data/a.root", "/data/b c.root", "root://host//x/y.root"
+    for files in ([A], [A, B], [B, A], [A, A], [A, B, A, B], [C, A, C], [A, B, C, B, A, A]):
+        with tempfile.TemporaryDirectory(prefix="fv-c05-job-", dir="/var/tmp") as d:
+            dp = _P(d)
+            (dp / "ROOT.py").write_text(STUB_ROOT)
+            (dp / "AnaAlgorithm").mkdir()
+            (dp / "AnaAlgorithm" / "__init__.py").write_text("")
+            (dp / "AnaAlgorithm" / "DualUseConfig.py").write_text("def createAlgorithm(*a, **k):\n    return object()\n")
+            (dp / "ATestRun_eljob.py").write_text(script)
+            (dp / "filelist.txt").write_text("".join(f + "\n" for f in files))
+            p = subprocess.run([_sys.executable, "ATestRun_eljob.py", "-s", "sub"], cwd=d, capture_output=True, text=True, timeout=120,
+                               env={"PYTHONPATH": d, "PATH": os.environ.get("PATH", "")})
+            rec = json.loads((dp / "fv_job_record.json").read_text()) if (dp / "fv_job_record.json").exists() else None
+        oc.evaluations += 1
+        got = rec["files"] if rec else None
+        hist["as listed" if got == files else "NOT as listed"] += 1
+        if got != files:
+            oc.violations.append(core.Violation(
+                key="c05:job-script-file-list",
+                what=f"atlas: the job script hands the driver the files {got} for the file list {files} (exit {p.returncode}): the events of a file listed twice "
+                     "are processed once / the order of the list is not kept, so the rows of a job depend on more than its events",
+                replay={"kind": "job-script", "file_list": files, "files_read_by_the_driver": got, "stderr": p.stderr[-400:]}))
+    return dict(hist)
+
+
 def check(tier: str, seed: int, t0: float, build: core.BuildStatus) -> int:
     logging.disable(logging.CRITICAL)
     ps = core.proof_status(PROP_FILE, build)
@@ -406,6 +475,7 @@ def check(tier: str, seed: int, t0: float, build: core.BuildStatus) -> int:
         oc.violations.append(core.Violation(key="c05:model-missing", what="extracted model executable missing", replay={"broken": "model"}, no_failing_input=True))
         return core.finish(PID, tier, seed, t0, ps, build, oc, TRUSTED, ASSUME)
     model = core.Model()
+    job_lists = job_script_file_lists(oc)
     rng = random.Random(f"c05-{seed}")
     n_gen = 700 if thorough else 150
     n_tpl = 150 if thorough else 36
@@ -439,6 +509,7 @@ def check(tier: str, seed: int, t0: float, build: core.BuildStatus) -> int:
     n_unparsed = sum(v for k, v in stats.items() if k.startswith("unparsed:"))
     n_ok = sum(v for k, v in stats.items() if k.startswith("status:") and k.endswith(":ok"))
     oc.extra.update({
+        "atlas_job_script_file_lists": job_lists,
         "input_distribution": {k: v for k, v in sorted(stats.items())},
         "quantifiers": {"events, member states, event lists, permutations, splits": "proved", "queries": "sampled"},
         "unparsed_fraction": round(n_unparsed / max(1, n_unparsed + n_ok), 4),
@@ -463,6 +534,17 @@ def replay(path: str, build: core.BuildStatus) -> int:
         print("broken obligation recorded:", data.get("broken"))
         print("proof status now:", ps.broken or "all theorems check")
         return 1 if ps.broken else 0
+    if data.get("kind") == "job-script":
+        oc2 = core.Outcome()
+        job_script_file_lists(oc2)
+        bad = [v for v in oc2.violations if v.replay.get("file_list") == data.get("file_list")]
+        for v in bad:
+            print(v.what)
+        if bad:
+            print(f"VIOLATION property={PID} replay={path}")
+            return 1
+        print("the job script reads the file list as listed")
+        return 0
     model = core.Model()
     be, src = data["backend"], data["query"]
     uni = qgen.Universe(be)
